@@ -16,6 +16,8 @@
 (*                                                  (C03: Full, vanilla)   *)
 (*   - the true regret is at most 6 D N (sqrt(A) + 1/sqrt(T)) / sqrt(T)    *)
 (*                                                  (C03: Full, presets)   *)
+(*   - between budget 25 and budget 2500 the true regret at least halves   *)
+(*     (or is below 0.2% of D)                      (C03: Full, presets)   *)
 (*   - the true regret is at most D N sqrt(A) / sqrt(T)                    *)
 (*                                          (C04: Sampled, External)       *)
 (* and, at the `corpus` event, that over the games of the trace the        *)
@@ -73,7 +75,15 @@ C03Vanilla(r) == r.iters = r.T => (r.b1lo <= VanillaEnv(r.T) /\ r.b2lo <= Vanill
 C03Preset(r) == (r.iters = r.T /\ ~PresetTrivial(r.T)) => r.rtlo <= PresetEnv(r.T)
 C04(r) == r.iters = r.T => r.rtlo <= SampledEnv(r.T)
 
+\* C03, the trend between the small budget (25) and the large one (2500) of one (game, preset, threads)
+\* series: at the CFR rate the regret shrinks by a factor of ten; demanded: by a factor of two, unless it
+\* is already below 0.2% of the payoff range.  Measured on the unchanged code: worst ratio 0.176 over 708
+\* series (DESIGN 4 C03), so the margin is about three.
+C03Trend(r) == (r.method = "Full" /\ r.last /\ small >= 0 /\ r.iters = r.T)
+                 => (2 * r.rtlo <= small + 2 \/ r.rtlo <= stats.D * 2000)
+
 RunOK(r) == /\ Common(r)
+            /\ C03Trend(r)
             /\ (r.method = "Full" /\ r.preset = "vanilla") => (C02(r) /\ C03Vanilla(r))
             /\ r.method = "Full" => C03Preset(r)
             /\ r.method # "Full" => C04(r)
@@ -81,7 +91,7 @@ RunOK(r) == /\ Common(r)
 \* corpus statistics over (game, method, preset) series of the sampled methods: `first` marks the
 \* small budget of a series, `last` the large one
 RunEv == /\ IsEvent("run")
-         /\ RunOK(Rec[l])
+         /\ RunOK(Rec[l]) = TRUE
          /\ small' = IF Rec[l].first THEN Rec[l].rtlo ELSE small
          /\ tally' = IF Rec[l].last /\ Rec[l].method # "Full" /\ small >= 0
                      THEN [n |-> tally.n + 1,
